@@ -24,7 +24,7 @@ RULE_TEXT = ("In-process server stack (SQLite or memory store). Human-in-the-loo
 COMPONENTS = {"real": ["DBOSIdleReleaseDecorator, SqliteRunLifecycleLock, DBOSRuntime adapters, TickPersistenceDecorator, EventInterceptorDecorator (DBOS half)", "IdleReleaseDecorator (release, reload lock, reload-on-demand), PersistenceDecorator.context_from_ticks, server stack, stores, engine"],
               "stub": ["llama_index_instrumentation", "dbos: EMULATED (DBOS half only)", "sqlalchemy, asyncpg (name only)"], "sim": ["loop, clocks, runner registry, responder"]}
 ASSUMPTIONS = ["activity = a processed tick other than an idle check, or an external send", "DBOS half: dbos itself is emulated (stubs/dbos, DESIGN 9.6); everything of the repository above it is real"]
-EXPECTED_PROBES = ["dbos-as-wired", "dbos-row-created-by-harness", "store-latency-arm", "released", "event-to-released-run", "event-before-release", "release-and-send-same-instant", "reloaded"]
+EXPECTED_PROBES = ["unconsumed-event-to-idle-run", "dbos-as-wired", "dbos-row-created-by-harness", "store-latency-arm", "released", "event-to-released-run", "event-before-release", "release-and-send-same-instant", "reloaded"]
 LEVEL_TEXT = "Seeded exploration of response instants around the release instant; liveness rules judged at stable instants / quiescence only."
 LEVEL_NOTE = "Trusted: simulator loop/clocks, runner registry."
 
@@ -76,7 +76,8 @@ async def scenario(world, spec):
     world.stable_checks.append(stable)
 
     def on_pub(seq, run, event):
-        if type(event).__name__ == "WorkflowIdleEvent":
+        if type(event).__name__ == "WorkflowIdleEvent" or (type(event).__name__ == "UnhandledEvent" and getattr(event, "idle", False)):
+            # both are the run saying "nothing can happen without new input"
             st["idle_pub_t"] = world.clock.t
         elif type(event).__name__ == "StepStateChanged" and event.step_state.name == "RUNNING":
             st["idle_pub_t"] = None
@@ -84,6 +85,13 @@ async def scenario(world, spec):
     answered = set()
 
     async def answer(c, d):
+        if d and world.tape.chance(30, 100, "stray?"):
+            # before the answer, an event that no step consumes reaches the idle run (the engine answers with UnhandledEvent): the
+            # run is as idle afterwards as before, and the idle timeout counts from there
+            await asyncio.sleep(d / 2)
+            d = world.tape.choice([d / 2, it + 3], "stray.then")
+            world.probe("unconsumed-event-to-idle-run")
+            await send(world, inc, world.mk("X0", -1, "ext"), "stray")
         if d:
             await asyncio.sleep(d)
         released = not world.live_runners.get(world._run)
